@@ -8,6 +8,7 @@ import (
 	"time"
 
 	resourcetypes "github.com/projecteru2/core/resource/types"
+	"github.com/projecteru2/core/rpc"
 	pb "github.com/projecteru2/core/rpc/gen"
 	coretypes "github.com/projecteru2/core/types"
 
@@ -390,7 +391,32 @@ func (w *cluWorld) execOp(ctx context.Context, op cluOp, plan map[string]int, re
 			}
 			w.probe("create_on_slow_machines")
 		}
-		ch, err := cal.CreateWorkload(ctx, opts)
+		var ch chan *coretypes.CreateWorkloadMessage
+		var err error
+		if op.ClientGone > 0 {
+			// through the RPC handler, with a client that goes away after a few messages: the
+			// deployment has to be seen through all the same
+			shim := &createShim{Cluster: cal, opts: opts}
+			vib := rpc.New(shim, w.ccfg, make(chan struct{}))
+			stream := &fakeCreateStream{ctx: ctx, failFrom: op.ClientGone}
+			w.probe("create_through_rpc_client_goes_away")
+			rerr := vib.CreateWorkload(&pb.DeployOptions{Name: op.App, Entrypoint: &pb.EntrypointOptions{Name: op.Entry}, Podname: opts.Podname, Count: int32(op.Count)}, stream)
+			w.sim.Settle()
+			shim.mu.Lock()
+			seen := append([]*coretypes.CreateWorkloadMessage{}, shim.seen...)
+			shim.mu.Unlock()
+			if rerr != nil && len(seen) == 0 {
+				out.err, out.failed = rerr, true
+				return
+			}
+			ch = make(chan *coretypes.CreateWorkloadMessage, len(seen))
+			for _, m := range seen {
+				ch <- m
+			}
+			close(ch)
+		} else {
+			ch, err = cal.CreateWorkload(ctx, opts)
+		}
 		if err != nil {
 			out.err, out.failed = err, true
 			return
